@@ -253,6 +253,11 @@ fn compare(a: &Act, before: &Snap, after: &Snap, m: &mut RefSubject, model_befor
                     }
                 }
                 // sequence
+                if !model_before.resources.contains_key(p) {
+                    // a new entry: the number it starts from is not fixed by the properties; follow the implementation
+                    m.resources.get_mut(p).unwrap().sequence = *seq as u64;
+                    continue;
+                }
                 let observed_before = model_before.resources.get(p).map(|r| !r.observers.is_empty()).unwrap_or(false);
                 if is_round && on_target && !observed_before {
                     // nobody observes: the statement does not say whether the number advances; follow the implementation
@@ -325,7 +330,7 @@ fn bfs_limit(prop: Prop, ctx: &Ctx, rep: &mut Report, limit: u8, with_setlimit: 
                 if !check {
                     // prefix replay (already verified when first explored): keep the model's sequence
                     // aligned with the implementation for rounds nobody observes
-                    if let Act::Changed(p, _, _) = a {
+                    if let Act::Changed(p, _, _) | Act::Register(_, _, p) = a {
                         if let (Some(r), Some(ir)) = (st.m.resources.get_mut(*p), st.s.get_resource(p)) {
                             r.sequence = ir.sequence as u64;
                         }
